@@ -15,7 +15,9 @@ Two layers:
 The hash functions are parameters (`HashFns`); the driver instantiates them with SHA-256
 (`leaf d = H(0x00 ‖ d)`, `branch l r = H(0x01 ‖ l ‖ r)`, `empty = H("")`).
 
-The model describes the code with the C11 fixes applied (see /verif/fixes/C11-*.patch).
+The model describes the code with the C11 fixes applied (see /verif/fixes/C11-*.patch); the definitions
+named `...Orig` keep the behaviour before the fixes C11-proof-duplicate-index / C11-proof-index-out-of-tree
+(no check of the index list) for the counterexample theorems of `Props/C11_Dup.lean`.
 Float arithmetic (`math.Log2/Ceil/Floor/Pow`) is modelled by exact integer arithmetic; the harness
 checks the agreement exhaustively up to 2^20 and around powers of two (it holds below 2^49).
 An index-out-of-range panic of the Go code is modelled as the error outcome `none`.
@@ -434,7 +436,9 @@ def calcLoop (hf : HashFns) (st : List Nat) (size height : Nat) :
                 if parentConflict result parent ph then none
                 else calcLoop hf st size height f (insertIdx rest parent) (mapSet result parent ph) cache sibs'
 
-/-- `calculatePathNodes(queryHashes, size, idxs, siblingHashes)` -/
+/-- `calculatePathNodes(queryHashes, size, idxs, siblingHashes)` without the check of the index list
+(the code before the fixes C11-proof-duplicate-index / C11-proof-index-out-of-tree; with the fixes: what
+runs once `idxsValid` has passed) -/
 def calcPathNodes (hf : HashFns) (q : List Bytes) (size : Nat) (idxs : List Nat) (sibs : List Bytes) :
     Option (List (Nat × Bytes)) :=
   if q.length != idxs.length then none
@@ -444,8 +448,45 @@ def calcPathNodes (hf : HashFns) (q : List Bytes) (size : Nat) (idxs : List Nat)
     calcLoop hf (layerStructure size) size (getHeight size) (sumBitLen sorted + 1) sorted
       (initResult q idxs []) [] sibs
 
+/-- pairwise distinct (`_, exist := result[idx]; exist` → error, in the loop that fills `result`) -/
+def distinctIdx : List Nat → Bool
+  | [] => true
+  | a :: r => !r.contains a && distinctIdx r
+
+/-- the index names a node of the tree: `newNodeLocation(idx, height)` succeeds and
+`loc.nodeIndex < structure[loc.layerIndex]` -/
+def idxInTree (st : List Nat) (height idx : Nat) : Bool :=
+  match newLoc idx height with
+  | none => false
+  | some loc => loc.2 < st.getD loc.1 0
+
+/-- the check of the index list in `calculatePathNodes` (the fixes C11-proof-duplicate-index and
+C11-proof-index-out-of-tree): the non-zero indexes are pairwise distinct and each of them names a node of
+the tree of `size` leaves. (A zero index stands for "not in the tree" and is skipped, as before.) -/
+def idxsValid (size : Nat) (idxs : List Nat) : Bool :=
+  distinctIdx (idxs.filter (· != 0)) &&
+    (idxs.filter (· != 0)).all (idxInTree (layerStructure size) (getHeight size))
+
+/-- `calculatePathNodes(queryHashes, size, idxs, siblingHashes)` as fixed: an index list that is not a set of
+nodes of the tree is an error (every error is `none`, so the position of the check among the other
+error exits does not matter; `size ≠ 0` at every call) -/
+def calcPathNodesChecked (hf : HashFns) (q : List Bytes) (size : Nat) (idxs : List Nat) (sibs : List Bytes) :
+    Option (List (Nat × Bytes)) :=
+  if !idxsValid size idxs then none else calcPathNodes hf q size idxs sibs
+
 /-- `VerifyProof` -/
 def verifyProof (hf : HashFns) (q : List Bytes) (p : Proof) (root : Bytes) : Bool :=
+  if p.size = 0 then false
+  else
+    match calcPathNodesChecked hf q p.size p.idxs p.sibs with
+    | none => false
+    | some res =>
+      match res.lookup 2 with
+      | none => false
+      | some r => r == root
+
+/-- `VerifyProof` before the fixes (no check of the index list) -/
+def verifyProofOrig (hf : HashFns) (q : List Bytes) (p : Proof) (root : Bytes) : Bool :=
   if p.size = 0 then false
   else
     match calcPathNodes hf q p.size p.idxs p.sibs with
@@ -457,6 +498,15 @@ def verifyProof (hf : HashFns) (q : List Bytes) (p : Proof) (root : Bytes) : Boo
 
 /-- `CalculateRootFromUpdateData` -/
 def rootFromUpdateData (hf : HashFns) (upd : List Bytes) (p : Proof) : Option Bytes :=
+  if p.size = 0 || p.idxs.length == 0 then none
+  else if upd.length != p.idxs.length then none
+  else
+    match calcPathNodesChecked hf (upd.map hf.leaf) p.size p.idxs p.sibs with
+    | none => none
+    | some res => res.lookup 2
+
+/-- `CalculateRootFromUpdateData` before the fixes -/
+def rootFromUpdateDataOrig (hf : HashFns) (upd : List Bytes) (p : Proof) : Option Bytes :=
   if p.size = 0 || p.idxs.length == 0 then none
   else if upd.length != p.idxs.length then none
   else
@@ -499,6 +549,29 @@ def update (hf : HashFns) (t : Tree) (idxs : List Nat) (data : List Bytes) : Opt
       match siblingHashes t idxs with
       | none => none
       | some sibs =>
+        match calcPathNodesChecked hf (data.map hf.leaf) t.core.size idxs sibs with
+        | none => none
+        | some calcd =>
+          match saveCalculated height calcd t with
+          | none => none
+          | some t1 =>
+            match calcd.lookup 2, refreshPath calcd t.core.size height height 0 t.core.path with
+            | some r, some p =>
+              let c : Core := ⟨r, p, t.core.size⟩
+              some { t1 with core := c, info := some c }
+            | _, _ => none
+
+/-- `Update(idxs, updateData)` before the fixes (no check of the index list); `none` = error (the model does not keep the nodes written before a late
+error; those errors are unreachable for trees built by `append`) -/
+def updateOrig (hf : HashFns) (t : Tree) (idxs : List Nat) (data : List Bytes) : Option Tree :=
+  if t.core.size = 0 then none
+  else
+    let height := getHeight t.core.size
+    if idxs.any (fun idx => bitLen idx != height + 1) then none
+    else
+      match siblingHashes t idxs with
+      | none => none
+      | some sibs =>
         match calcPathNodes hf (data.map hf.leaf) t.core.size idxs sibs with
         | none => none
         | some calcd =>
@@ -510,6 +583,30 @@ def update (hf : HashFns) (t : Tree) (idxs : List Nat) (data : List Bytes) : Opt
               let c : Core := ⟨r, p, t.core.size⟩
               some { t1 with core := c, info := some c }
             | _, _ => none
+
+/-! ## The fixed operations in terms of the original ones -/
+
+theorem verifyProof_eq (hf : HashFns) (q : List Bytes) (p : Proof) (root : Bytes) :
+    verifyProof hf q p root = (idxsValid p.size p.idxs && verifyProofOrig hf q p root) := by
+  unfold verifyProof verifyProofOrig calcPathNodesChecked
+  cases idxsValid p.size p.idxs <;> simp
+
+theorem rootFromUpdateData_eq (hf : HashFns) (upd : List Bytes) (p : Proof) :
+    rootFromUpdateData hf upd p = if idxsValid p.size p.idxs then rootFromUpdateDataOrig hf upd p else none := by
+  unfold rootFromUpdateData rootFromUpdateDataOrig calcPathNodesChecked
+  cases idxsValid p.size p.idxs <;> simp
+
+theorem update_eq (hf : HashFns) (t : Tree) (idxs : List Nat) (data : List Bytes) :
+    update hf t idxs data = if idxsValid t.core.size idxs then updateOrig hf t idxs data else none := by
+  unfold update updateOrig calcPathNodesChecked
+  cases idxsValid t.core.size idxs
+  · simp only [Bool.not_false, if_true, Bool.false_eq_true, if_false]
+    split
+    · rfl
+    · split
+      · rfl
+      · split <;> rfl
+  · simp
 
 /-! ## Right witness -/
 
